@@ -196,8 +196,27 @@ def c15io (args : List String) (impl : String) : Verdict :=
     | _, _ => bad "fs"
   | _ => bad "walkio-args"
 
-/-- all ops of C15 -/
+/-- the real-file-system ops end their observation with `fds=<n>`: the number of descriptors of the process that
+    are open after the call and were not before it (finalizers off).  Split it off and judge it. -/
+def splitFds (impl : String) : String × Option Nat :=
+  let toks := impl.splitOn " "
+  match toks.getLast? with
+  | some t => if t.startsWith "fds=" then (" ".intercalate toks.dropLast, (t.drop 4).toString.toNat?) else (impl, none)
+  | none => (impl, none)
+
+def withFds (v : Verdict) (fds : Option Nat) : Verdict :=
+  match fds with
+  | some 0 | none => v
+  | some n => if v.prop == "PROP_FAIL" then v else
+    { v with prop := "PROP_FAIL", why := s!"every_opened_file_is_closed:descriptors_left_open={n}" }
+
+/-- all ops of C15.  `walkfsdir` is `walkio` through the real file system: an entry with flag 1 and no text is a
+    DIRECTORY (FileSystemOpener opens it, the first Read fails with EISDIR) -/
 def c15x (op : String) (args : List String) (impl : String) : Verdict :=
-  if op == "walkio" then c15io args impl else c15 op args impl
+  let (impl', fds) := splitFds impl
+  if op == "walkio" then c15io args impl
+  else if op == "walkfsdir" then withFds (c15io (args ++ ["0"]) impl') fds
+  else if op == "walkfs" then withFds (c15 op args impl') fds
+  else c15 op args impl
 
 end RV.Driver
